@@ -634,7 +634,21 @@ func ruleDropHook() check.Rule {
 						n++
 						c.Inc("refusal_branches", 1)
 						key := fmt.Sprintf("ro.%s.%s/refusal#%d", tname, fd.Name.Name, n)
-						if callsHook(fail) {
+						// every path through the refusing branch reports to the hook (an else-if chain that diverts some refusals
+						// elsewhere does not)
+						reports := callsHook(fail)
+						if reports && fail != nil {
+							blk, isBlk := fail.(*ast.BlockStmt)
+							if !isBlk {
+								if st, isStmt := fail.(ast.Stmt); isStmt {
+									blk = &ast.BlockStmt{Lbrace: fail.Pos(), List: []ast.Stmt{st}, Rbrace: fail.End()}
+								}
+							}
+							if blk != nil {
+								reports = everyPathPasses(blk, func(nd ast.Node) bool { return callsHook(nd) })
+							}
+						}
+						if reports {
 							c.OK(key, at.Pos(), "the refusing branch reports the notification to OnDroppedNotification")
 						} else {
 							c.Violation(key, at.Pos(), "a notification refused by the status gate is discarded silently: OnDroppedNotification is not called on the refusing branch")
